@@ -5,6 +5,7 @@ mod tcp;
 mod table;
 mod codec;
 mod ext;
+mod gen;
 
 fn main() {
     // panics inside the code under test are data (recorded in the output), not noise on stderr
@@ -19,6 +20,15 @@ fn main() {
         "tcp" => tcp::main_tcp(&args[2..]),
         "table" => table::main_table(&args[2..]),
         "codec" => codec::main_codec(&args[2..]),
+        "gen" => gen::main_gen(&args[2..]),
+        "compr" => {
+            use std::io::Write;
+            let mut out = std::io::BufWriter::new(std::fs::File::create(&args[2]).expect("out"));
+            for t in 0..=65535u32 {
+                let at = stun_types::attribute::AttributeType::new(t as u16);
+                writeln!(out, "{{\"t\":{},\"cr\":{},\"v\":{}}}", t, at.comprehension_required(), at.value() as u32 == t && u16::from(at) as u32 == t).unwrap();
+            }
+        }
         m => {
             eprintln!("unknown mode {m}");
             std::process::exit(2);
